@@ -83,14 +83,15 @@ impl Task for EpollJob {
         #[cfg(khttp_verif)]
         crate::verif::emit(format!("WC{}:{:x}", vw, vh));
         handle.closed.store(true, Ordering::Release);
+        // (the closed store, the hand-over and the wake-up are each logged atomically with the operation)
         #[cfg(khttp_verif)]
-        drop(_sync);
-        #[cfg(khttp_verif)]
-        crate::verif::emit(format!("WR{}:{:x}", vw, vh));
+        crate::verif::emit(format!("WP{}:{:x}", vw, vh));
 
         // Hand the record over to the event loop, which frees it once the batch of events it is
         // processing is done (only then can no harvested event refer to it any more).
         reaper.dead.lock().unwrap().push(self.handle_ptr);
+        #[cfg(khttp_verif)]
+        crate::verif::emit(format!("WW{}:{:x}", vw, vh));
         reaper.wake();
     }
 }
@@ -230,6 +231,10 @@ impl Server {
                     }
                 } else if token == WAKE_TOKEN {
                     // a worker closed a connection: its record is freed after this batch
+                    #[cfg(khttp_verif)]
+                    let _sync = crate::verif::sync_lock();
+                    #[cfg(khttp_verif)]
+                    crate::verif::emit("LW".to_string());
                     reaper.drain_wake();
                 } else {
                     let handle_ptr = token as *mut Handle;
@@ -257,6 +262,8 @@ impl Server {
             }
             // Every event of this batch has been processed and closed connections were removed
             // from the epoll set before their record was queued: nothing refers to them any more.
+            #[cfg(khttp_verif)]
+            let _sync = crate::verif::sync_lock();
             #[cfg(khttp_verif)]
             crate::verif::emit("BE".to_string());
             reaper.free_dead();
